@@ -1,7 +1,7 @@
 """Directed histories and negative controls per life-cycle property."""
 import life_common as L
 
-ARCHS = (["Linear", "Other", "Linear"], ["LayerNorm", "Linear"], ["Conv2d", "Other", "Conv2d"], ["Linear", "LayerNorm", "Linear"])
+ARCHS = (["Linear", "Other", "Linear"], ["LayerNorm", "Linear"], ["Conv2d", "Other", "Conv2d"], ["Linear", "LayerNorm", "Linear"], ["Linear", "Linear"])
 CAL = [{"a": "EnterCalib", "momentum": "m90", "streamline": False}, {"a": "CalibBatch", "batch": "b1"}, {"a": "ExitCalib"}]
 
 
@@ -19,7 +19,7 @@ def directed(judge):
                     out.append({"arch": arch, "prog": [q] + cal + [{"a": "Forward", "x": "x1"}, {"a": "Freeze"}, {"a": "Freeze"}, {"a": "DeepCopy"}, {"a": "Forward", "x": "x2"}]})
                 elif judge == "C10":
                     for ser in ("none", "pickle", "weights_only", "safetensors"):
-                        for target in ("default", "same", "requantize"):
+                        for target in ("default", "same", "requantize", "otherq"):
                             for frozen in (False, True):
                                 out.append({"arch": arch, "prog": [q] + cal + ([{"a": "Freeze"}] if frozen else []) +
                                             [{"a": "Save", "ser": ser}, {"a": "Load", "target": target}, {"a": "Forward", "x": "x1"},
@@ -29,7 +29,7 @@ def directed(judge):
                                                                    {"a": "Freeze"}, {"a": "OptStep"}, {"a": "Forward", "x": "x1"}]})
                 elif judge == "C13":
                     out.append({"arch": arch, "prog": [q, {"a": "EnterCalib", "momentum": "m50", "streamline": True}, {"a": "EnterCalib", "momentum": "m90", "streamline": False},
-                                                       {"a": "CalibBatch", "batch": "b1"}, {"a": "LibCall"}, {"a": "RaiseIn", "batch": "b2", "k": 2}, {"a": "Forward", "x": "x1"}, {"a": "LibCall"},
+                                                       {"a": "CalibBatch", "batch": "b1"}, {"a": "LibCall"}, {"a": "ForeignBatch"}, {"a": "RaiseIn", "batch": "b2", "k": 1}, {"a": "Forward", "x": "x1"}, {"a": "LibCall"},
                                                        {"a": "EnterCalib", "momentum": "m25", "streamline": False}, {"a": "ExitCalib"}, {"a": "Forward", "x": "x2"}]})
     return out
 
